@@ -116,6 +116,54 @@ func sdfLeaves3() []Leaf3 {
 		return sdf.Mesh3DSlow(cubeMesh(1))
 	}))
 
+	// tapered screws, long enough for the taper to matter (the tree menu's screws are straight)
+	for _, k := range []struct {
+		r, pitch, length, taperDeg float64
+		ext                        bool
+	}{
+		{5, 1, 60, 1.7899, true},  // NPT taper atan(1/32) over 60 pitches
+		{4, 1.5, 40, 3, true},     // 3 degrees
+		{6, 2, 30, 1.7899, false}, // internal profile
+		{3, 0.5, 6, 1.7899, true}, // short
+	} {
+		k := k
+		add(mk3(fmt.Sprintf("Screw3D(ISOThread(r=%s,p=%s,ext=%v),len=%s,taper=%sdeg)", g(k.r), g(k.pitch), k.ext, g(k.length), g(k.taperDeg)), "Screw3D", false, false, func() (sdf.SDF3, error) {
+			t, err := sdf.ISOThread(k.r, k.pitch, k.ext)
+			if err != nil {
+				return nil, err
+			}
+			return sdf.Screw3D(t, k.length, deg(k.taperDeg), k.pitch, 1)
+		}))
+	}
+
+	// the documented use of the unbounded gyroid: intersected with a bounded first operand
+	add(mk3("Intersect3D(Box3D(4x4x4), Gyroid3D(scale 1))", "Intersect3D", false, false, func() (sdf.SDF3, error) {
+		b, err := sdf.Box3D(xyz(4, 4, 4), 0)
+		if err != nil {
+			return nil, err
+		}
+		gy, err := sdf.Gyroid3D(xyz(1, 1, 1))
+		if err != nil {
+			return nil, err
+		}
+		return sdf.Intersect3D(b, gy), nil
+	}))
+	add(mk3("Intersect3D(Sphere3D(3), Shell3D(Gyroid3D(scale 2), 0.2))", "Intersect3D", false, false, func() (sdf.SDF3, error) {
+		b, err := sdf.Sphere3D(3)
+		if err != nil {
+			return nil, err
+		}
+		gy, err := sdf.Gyroid3D(xyz(2, 2, 2))
+		if err != nil {
+			return nil, err
+		}
+		sh, err := sdf.Shell3D(gy, 0.2)
+		if err != nil {
+			return nil, err
+		}
+		return sdf.Intersect3D(b, sh), nil
+	}))
+
 	return ls
 }
 
